@@ -231,16 +231,21 @@ def strToNone : PyVal → PyVal
   | v => v
 
 mutual
-/-- `util.make_serializable` (as fixed: arrays carry dtype and shape; NumPy arrays accepted).
-    Lists, tuples, `numpy.bool_` and every other object fall through the `else` branch unchanged. -/
+/-- `util.make_serializable` (as fixed: arrays carry dtype and shape; NumPy arrays accepted;
+    `numpy.bool_` → `bool`; lists and tuples are rebuilt element-wise as NEW lists; slice members go
+    through the same conversion).  Every other object falls through the `else` branch unchanged. -/
 def makeSerializable : PyVal → PyVal
   | .arr dt sh d => .dict [("type", .str "jax.numpy"), ("data", nest sh d),
                            ("dtype", .str dt.name), ("shape", .list (sh.map fun n => .int (Int.ofNat n)))]
+  | .npBool b => .bool b
   | .npInt i => .int i
   | .npFloat b => .float b
-  | .slice a b c => .dict [("type", .str "slice"), ("data", .list [noneToStr a, noneToStr b, noneToStr c])]
+  | .slice a b c => .dict [("type", .str "slice"),
+                           ("data", .list [makeSerializable a, makeSerializable b, makeSerializable c])]
   | .dict kvs => .dict [("type", .str "dict"), ("data", .dict (makeSerializableK kvs))]
   | .set xs => .dict [("type", .str "set"), ("data", .list (makeSerializableL xs))]
+  | .list xs => .list (makeSerializableL xs)
+  | .tuple xs => .list (makeSerializableL xs)
   | .none => .str "None"
   | v => v
 def makeSerializableL : List PyVal → List PyVal
@@ -297,24 +302,31 @@ def mkSet (ys : List PyVal) : PyM PyVal :=
 
 mutual
 /-- `util.deserialize`.  A dict must have a `"type"` key (`KeyError` otherwise); an unknown type
-    falls off the end of the function and yields `None`, as in the code. -/
+    falls off the end of the function and yields `None`, as in the code; a list is rebuilt
+    element-wise (a tuple is not a list and falls through unchanged). -/
 def deserialize : PyVal → PyM PyVal
   | .dict kvs =>
     match alookup "type" kvs with
     | Option.none => .error (.internal "KeyError")
     | some (.str t) =>
       if t = "jax.numpy" then deserArr kvs
-      else if t = "slice" then
-        match alookup "data" kvs with
-        | Option.none => .error (.internal "KeyError")
-        | some (.list xs) => mkSlice (xs.map strToNone)
-        | some (.tuple xs) => mkSlice (xs.map strToNone)
-        | some _ => .error (.unmodelled "slice-data")
+      else if t = "slice" then deserSliceData kvs
       else if t = "dict" then deserDictData kvs
       else if t = "set" then deserSetData kvs
       else .ok .none
     | some _ => .ok .none
+  | .list xs => (deserializeL xs).map .list
   | v => .ok (strToNone v)
+/-- `slice(*[deserialize(v) for v in x["data"]])` -/
+def deserSliceData : List (String × PyVal) → PyM PyVal
+  | [] => .error (.internal "KeyError")
+  | (k, v) :: rest =>
+    if k = "data" then
+      match v with
+      | .list xs => (deserializeL xs).bind mkSlice
+      | .tuple xs => (deserializeL xs).bind mkSlice
+      | _ => .error (.unmodelled "slice-data")
+    else deserSliceData rest
 /-- `{k: deserialize(v) for k, v in x["data"].items()}` -/
 def deserDictData : List (String × PyVal) → PyM PyVal
   | [] => .error (.internal "KeyError")
@@ -455,16 +467,19 @@ def roundTripDict (v : PyVal) : PyM PyVal := deserialize (makeSerializable v)
 /-! ### the normal form a value comes back in -/
 
 mutual
-/-- NumPy scalars come back as Python scalars of equal value; `f` is what the transport does to
-    float bits (`canonNaN` through JSON text, `id` on the dict path). -/
+/-- NumPy scalars come back as Python scalars of equal value, tuples as lists; `f` is what the
+    transport does to float bits (`canonNaN` through JSON text, `id` on the dict path). -/
 def PyVal.normF (f : UInt64 → UInt64) : PyVal → PyVal
   | .float b => .float (f b)
   | .npFloat b => .float (f b)
   | .npInt i => .int i
+  | .npBool b => .bool b
   | .arr dt sh d => .arr dt sh (d.map (Scalar.mapF f))
+  | .slice a b c => .slice (PyVal.normF f a) (PyVal.normF f b) (PyVal.normF f c)
   | .dict kvs => .dict (PyVal.normFK f kvs)
   | .set xs => .set (PyVal.normFL f xs)
   | .list xs => .list (PyVal.normFL f xs)
+  | .tuple xs => .list (PyVal.normFL f xs)
   | v => v
 def PyVal.normFL (f : UInt64 → UInt64) : List PyVal → List PyVal
   | [] => []
@@ -478,26 +493,10 @@ abbrev PyVal.norm : PyVal → PyVal := PyVal.normF canonNaN
 
 /-! ### well-formed values: what the property quantifies over -/
 
-mutual
-/-- Values a Python list may hold and still pass `json.dumps` untouched by `make_serializable`
-    (which does not look inside lists). -/
-def PyVal.plain : PyVal → Bool
-  | .none | .bool _ | .int _ | .float _ | .str _ => true
-  | .list xs => PyVal.plainL xs
-  | _ => false
-def PyVal.plainL : List PyVal → Bool
-  | [] => true
-  | x :: xs => PyVal.plain x && PyVal.plainL xs
-end
-
 /-- Hashable scalars a set may hold. -/
 def PyVal.atom : PyVal → Bool
-  | .none | .bool _ | .int _ | .float _ | .npInt _ | .npFloat _ => true
+  | .none | .bool _ | .int _ | .float _ | .npInt _ | .npFloat _ | .npBool _ => true
   | .str s => s != "None"
-  | _ => false
-
-def sliceComp : PyVal → Bool
-  | .none | .int _ => true
   | _ => false
 
 /-- No two elements coincide (structurally). -/
@@ -510,19 +509,23 @@ def nodupKeys : List (String × PyVal) → Bool
   | (k, _) :: r => r.all (fun p => p.1 != k) && nodupKeys r
 
 mutual
-/-- The value grammar of the property, with the exclusions the property makes (the reserved string
-    `"None"`, containers JSON cannot keep) and the region where the code still fails
-    (`numpy.bool_`; NumPy scalars inside lists or slices — see `C19.lean`). `f` as in `normF`:
-    a set must still be duplicate-free after its elements have come back. -/
+/-- The value grammar of the property.  Excluded is only what the property itself excludes: the
+    reserved string `"None"` (anywhere), objects of foreign types, and — through the normal form,
+    which maps a tuple to a list — tuple-vs-list identity. `f` as in `normF`: a set must still be
+    duplicate-free after its elements have come back. -/
 def PyVal.WF (f : UInt64 → UInt64) : PyVal → Bool
-  | .none | .bool _ | .int _ | .float _ | .npInt _ | .npFloat _ => true
+  | .none | .bool _ | .int _ | .float _ | .npInt _ | .npFloat _ | .npBool _ => true
   | .str s => s != "None"
   | .arr dt sh d => d.length == prodL sh && d.all (fun s => s.dtype == dt)
-  | .slice a b c => sliceComp a && sliceComp b && sliceComp c
+  | .slice a b c => PyVal.WF f a && PyVal.WF f b && PyVal.WF f c
   | .dict kvs => PyVal.WFK f kvs && nodupKeys kvs
   | .set xs => xs.all PyVal.atom && nodupPy (PyVal.normFL f xs)
-  | .list xs => PyVal.plainL xs
-  | .npBool _ | .tuple _ | .opaque _ => false
+  | .list xs => PyVal.WFL f xs
+  | .tuple xs => PyVal.WFL f xs
+  | .opaque _ => false
+def PyVal.WFL (f : UInt64 → UInt64) : List PyVal → Bool
+  | [] => true
+  | x :: xs => PyVal.WF f x && PyVal.WFL f xs
 def PyVal.WFK (f : UInt64 → UInt64) : List (String × PyVal) → Bool
   | [] => true
   | (_, v) :: r => PyVal.WF f v && PyVal.WFK f r
